@@ -5,7 +5,7 @@
 pid=$1; d=$2; shift 2
 S=/tmp/seedtest
 git -C $S/repo checkout -- . ; git -C $S/repo checkout -q --detach $(git -C /repo rev-parse HEAD)
-( cd $S/verif && git pull -q --no-edit /verif main >/dev/null 2>&1 )
+( cd $S/verif && git reset -q --hard && git pull -q --no-edit /verif main >/dev/null 2>&1 )
 cd $S/repo || exit 2
 git apply --check "$d/patch.diff" || { echo "patch does not apply" | tee "$d/check_output.txt"; exit 3; }
 git apply "$d/patch.diff"
